@@ -329,7 +329,9 @@ func verifC28E2E(f []string) string {
 	os.Mkdir(filepath.Join(dir, "p"), 0o755)
 	var files []string
 	switch f[0] {
-	case "list", "lists", "liste", "listse": // lists / liste / listse: with a start / end / both query parameter
+	case "list", "lists", "liste", "listse", "listA", "listB", "listE0", "listSE0":
+		// lists / liste / listse: with a start / end / both query parameter (window = the first hour);
+		// listA / listB: window entirely after / before everything; listE0 / listSE0: end (and start) exactly on the first segment's start
 		k := verifutil.Atoi(f[1])
 		for i := 0; i < k; i++ {
 			files = append(files, f[3+2*i])
@@ -421,13 +423,24 @@ func TestVerifC28Child(t *testing.T) {
 	v := url.Values{}
 	v.Set("path", "p")
 	ep := "list"
+	t0 := time.Date(2020, 1, 1, 0, 0, 0, 0, time.Local)
 	switch os.Getenv("VERIF_C28_REQ") {
-	case "lists", "listse":
-		v.Set("start", time.Date(2020, 1, 1, 0, 0, 0, 0, time.Local).Format(time.RFC3339))
+	case "lists", "listse", "listSE0":
+		v.Set("start", t0.Format(time.RFC3339))
+	case "listA":
+		v.Set("start", t0.Add(2*time.Hour).Format(time.RFC3339))
+	case "listB":
+		v.Set("start", t0.Add(-2*time.Hour).Format(time.RFC3339))
 	}
 	switch os.Getenv("VERIF_C28_REQ") {
 	case "liste", "listse":
-		v.Set("end", time.Date(2020, 1, 1, 1, 0, 0, 0, time.Local).Format(time.RFC3339))
+		v.Set("end", t0.Add(time.Hour).Format(time.RFC3339))
+	case "listA":
+		v.Set("end", t0.Add(3*time.Hour).Format(time.RFC3339))
+	case "listB":
+		v.Set("end", t0.Add(-time.Hour).Format(time.RFC3339))
+	case "listE0", "listSE0":
+		v.Set("end", t0.Format(time.RFC3339))
 	}
 	if os.Getenv("VERIF_C28_REQ") == "get" {
 		ep = "get"
@@ -1094,7 +1107,7 @@ func verifC28GenE2E(r *verifutil.Rand, src []byte, base verifC28Base, hl int) st
 	}
 	if r.Bool() {
 		k := 1 + r.Intn(2)
-		s := fmt.Sprintf("e2e %s %d", r.Pick("list", "lists", "liste", "listse"), k)
+		s := fmt.Sprintf("e2e %s %d", r.Pick("list", "lists", "liste", "listse", "listA", "listA", "listB", "listE0", "listSE0"), k)
 		for j := 0; j < k; j++ {
 			b := hostile()
 			s += " " + verifC28InitOracle(b) + " " + verifutil.Hex(b)
@@ -1218,6 +1231,11 @@ func TestVerifC28MkCorpus(t *testing.T) {
 			out = append(out, parse(c))
 		}
 	}
+	out = append(out, "# round 4: windows entirely after / before / touching the recorded media, VALID recordings")
+	for _, v := range []string{"listA", "listB", "listE0", "listSE0"} {
+		out = append(out, fmt.Sprintf("e2e %s 1 %s %s", v, verifC28InitOracle(a1c.data), verifutil.Hex(a1c.data)))
+	}
+	out = append(out, fmt.Sprintf("e2e listA 2 %s %s %s %s", verifC28InitOracle(a1c.data), verifutil.Hex(a1c.data), verifC28InitOracle(va3c.data), verifutil.Hex(va3c.data)))
 	zero := make([]byte, 300)
 	for _, v := range []string{"lists", "liste", "listse"} {
 		out = append(out, fmt.Sprintf("e2e %s 1 %s %s", v, verifC28InitOracle(zero), verifutil.Hex(zero)))
